@@ -55,6 +55,7 @@ type (
 )
 
 type Clause struct {
+	After  string // cut: the anchor is searched after the first line containing this text
 	Forget string // cut: ghost state replaced by an unknown after the proof ("pen")
 	Anchor string // cut: source text identifying the statement the clause is attached to
 	Lemma  bool   // exit lemma (assumed after being obliged)
@@ -747,6 +748,16 @@ func (pc *PkgContracts) parseBlock(body, file string, line0 int) error {
 				}
 				cl.Anchor = t[1 : 1+end]
 				text = strings.TrimSpace(t[end+2:])
+				// "<text>" after "<text2>" : the first line containing text that comes after the first line containing text2
+				if strings.HasPrefix(text, "after \"") {
+					t2 := text[len("after \""):]
+					e2 := strings.Index(t2, "\"")
+					if e2 < 0 {
+						return errf("cut \"<text>\" after \"<text2>\" ...")
+					}
+					cl.After = t2[:e2]
+					text = strings.TrimSpace(t2[e2+1:])
+				}
 				// "<text>" @N : the N-th source line (from 1) containing the text
 				if strings.HasPrefix(text, "@") {
 					f := strings.Fields(text)
